@@ -35,7 +35,8 @@ Record adump := mkD {
   d_rule : rule;
   d_lab : labeling;
   d_del : delpol;
-  d_zombies : list (Z * (Z * Z)) (* inactive handle, (cache count, entries) *)
+  d_zombies : list (Z * (Z * Z)); (* inactive handle, (cache count, entries) *)
+  d_lsz : list Z                 (* size of every linear level, level 1 first *)
 }.
 
 (** position of a level in the top-down order (larger = higher) *)
@@ -107,7 +108,10 @@ Definition child_refs (d : adump) : list Z :=
     8 hashes disagree                     9 node count <> live nodes <> unique table
     10 incoming count not exact           11 unreferenced node not reclaimed
     12 cache count <> number of entries   13 edge values not normalised
-    14 full view has the wrong size       15 singleton flag disagrees with content *)
+    14 full view has the wrong size       15 singleton flag disagrees with content
+    16 recorded level size differs from the forest's level size
+    17 node at level 0                    18 quasi-reduced root edge below the top level
+    19 root edge to a handle that is neither a terminal nor a live node *)
 
 Definition check_node (d : adump) (n : anode) : list (nat * Z) :=
   let rel := d_rel d in
@@ -153,11 +157,13 @@ Definition check_node (d : adump) (n : anode) : list (nat * Z) :=
     | _ => []
     end in
   let c14 := if Z.of_nat (length fl) =? a_sz n then [] else [(14%nat, h)] in
+  let c16 := if a_sz n =? nth (Z.to_nat (lpos rel (a_lvl n) - 1)) (d_lsz d) 0 then [] else [(16%nat, h)] in
   let c15 := match singleton_index n with
              | Some i => if a_sg n =? i then [] else [(15%nat, h)]
              | None => if a_sg n =? -1 then [] else [(15%nat, h)]
              end in
-  c2 ++ c3 ++ c4 ++ c6 ++ c7 ++ c8 ++ c12 ++ c13 ++ c14 ++ c15.
+  let c17 := if 0 <? lpos rel (a_lvl n) then [] else [(17%nat, h)] in
+  c2 ++ c3 ++ c4 ++ c6 ++ c7 ++ c8 ++ c12 ++ c13 ++ c14 ++ c15 ++ c16 ++ c17.
 
 (** clause 5: references to primed-level singleton nodes *)
 Definition is_singleton_at (d : adump) (c : Z) (i : Z) : bool :=
@@ -223,6 +229,35 @@ Definition check_totals (d : adump) : list (nat * Z) :=
   (if (d_count d =? n) && (d_active d =? n) && (d_ut d =? n) then [] else [(9%nat, 0)])
   ++ flat_map (fun z => if fst (snd z) =? snd (snd z) then [] else [(12%nat, fst z)]) (d_zombies d).
 
+(** clause 18: in a quasi-reduced forest a root edge is the transparent
+    terminal or points to the top level *)
+Definition check_roots (d : adump) : list (nat * Z) :=
+  flat_map (fun r =>
+    (if (r <=? 0) || (match find_node d r with Some _ => true | None => false end)
+     then [] else [(19%nat, r)]) ++
+    match d_rule d with
+    | QR => if (r =? 0) || (lpos (d_rel d) (level_of d r) =? Z.of_nat (length (d_lsz d)))
+            then [] else [(18%nat, r)]
+    | _ => []
+    end) (d_roots d).
+
+(** the domain description in the dump is well formed: every level has at
+    least one value; an identity-reduced forest is a relation forest whose
+    primed and unprimed levels pair up with equal sizes of at least 2 *)
+Fixpoint pairedb (l : list Z) : bool :=
+  match l with
+  | a :: b :: r => (a =? b) && pairedb r
+  | _ => true
+  end.
+
+Definition dom_ok (d : adump) : bool :=
+  forallb (fun z => 1 <=? z) (d_lsz d) &&
+  match d_rule d with
+  | IR => d_rel d && forallb (fun z => 2 <=? z) (d_lsz d)
+          && Nat.even (length (d_lsz d)) && pairedb (d_lsz d)
+  | _ => true
+  end.
+
 Definition audit (d : adump) : list (nat * Z) :=
   check_totals d ++ check_dups (d_lab d) (d_nodes d)
-  ++ flat_map (check_node d) (d_nodes d) ++ check_ir d ++ check_counts d.
+  ++ flat_map (check_node d) (d_nodes d) ++ check_ir d ++ check_counts d ++ check_roots d.
